@@ -1,6 +1,6 @@
 (* Extraction of the executable models and specs to OCaml. ExtrOcamlBasic only: bool, option, unit,
    list, prod, sumbool, sumor mapped to OCaml's; N, Z, positive, nat stay Coq datatypes. *)
-From HV Require Import Base_Bytes Spec_SHA Model_BlockHash Model_Sha2Ctx Model_Sha1Ctx Model_CtEq.
+From HV Require Import Base_Bytes Spec_SHA Spec_HMAC Model_BlockHash Model_Sha2Ctx Model_Sha1Ctx Model_Hash Model_Hmac Model_CtEq.
 Require Import ExtrOcamlBasic.
 Extraction Language OCaml.
 Extraction "model.ml"
@@ -9,4 +9,6 @@ Extraction "model.ml"
   SHA_spec
   sha256_init sha256_update sha256_finish sha512_init sha512_update sha512_finish sha512_finish_pinned fresh2
   sha1_init sha1_update sha1_finish fresh1
+  hfresh hinit hupdate hfinish hash_oneshot hash_hexstr sha512_oneshot_pinned
+  HMAC_spec get_hmac_raw get_hmac_str to_hex hc_new hmac_init hmac_update hmac_final
   ct_equals.
